@@ -11,3 +11,16 @@ package extensions
 //@ use casketfile/contracts_verif.go:dispenser_api
 //@ use @verif/specs/stdlib.spec:stdlib
 //@ use @verif/specs/stdlib.spec:casket_api
+
+//@ unit ext_handler frames=on props=C12 nilchecks=on filter=`extensions\.Ext\)\.ServeHTTP$`
+//@ // C12: a pass-through middleware - it may rewrite the request path, sends nothing itself, calls the next handler exactly
+//@ // once and returns exactly what that returned
+//@ use @verif/specs/stdlib.spec:handler_chain
+//@ use @verif/specs/stdlib.spec:stdlib
+//@ extern os.Stat
+//@ extern github.com/tmpim/casket/caskethttp/httpserver.SafePath
+//@ func (Ext).ServeHTTP
+//@   requires w != nil && r != nil && r.URL != nil && e.Next != nil
+//@   modifies ghost:nextCalls, ghost:nextRet, URL.Path
+//@   ensures [passes_on_once_returns_its_answer_sends_nothing] nextCalls == old(nextCalls) + 1 && result0 == nextRet && hw == old(hw) && bodyWrites == old(bodyWrites)
+//@   loop 1 invariant r != nil && r.URL != nil && nextCalls == old(nextCalls) && hw == old(hw) && bodyWrites == old(bodyWrites)
